@@ -280,7 +280,11 @@ func runCell(p *pki, o *origin, cl cell, timeout time.Duration) (res cellResult)
 				}
 			}
 			if rec.Outcome == "Cleartext" {
-				viol("https-in-cleartext", "https request written in clear to the TLS port: no certificate was checked")
+				how := "no-custom-dialer"
+				if c.DialTLSContext != nil {
+					how = "EnableH2C-dialer" // the harness never calls SetDialTLS: only EnableH2C installs one
+				}
+				viol("https-in-cleartext/"+how, "https request written in clear to the TLS port: no certificate was checked")
 			}
 			if o.spec.HTTPS && len(rec.Hellos) > 0 {
 				stack := "tcp"
